@@ -28,7 +28,7 @@ package vmm
 //@ pred wfReserve() = earlyReserveLastUsed <= tempMappingAddr && earlyReserveLastUsed&0xfff == 0
 
 //@ func EarlyReserveRegion(size uintptr) (addr uintptr, err *kernel.Error)
-//@   property C07
+//@   property C07 C05
 //@   requires wfReserve()
 //@   modifies earlyReserveLastUsed
 //@   ensures wf:      wfReserve()
